@@ -207,6 +207,15 @@ def _selection(ctx):
                        isinstance(sub.targets[0], ast.Tuple) and
                        isinstance(sub.value, ast.Call) and
                        K.is_meth(sub.value, 'split')]
+                # ... or the first piece taken by position
+                ids += [N.txt(sub.targets[0])
+                        for sub in K.walk_no_nested(func.node)
+                        if isinstance(sub, ast.Assign) and
+                        isinstance(sub.targets[0], ast.Name) and
+                        isinstance(sub.value, ast.Subscript) and
+                        isinstance(sub.value.value, ast.Call) and
+                        K.is_meth(sub.value.value, 'split') and
+                        N.txt(sub.value.slice) == '0']
                 def whole_listing(expr):
                     if isinstance(expr, ast.Call) and \
                             K.callee_text(expr) in ('set', 'frozenset',
